@@ -9,7 +9,8 @@ GEN = ["hashutil", "uri"]
 RULE = ("cases: (a) every cap kind (9 file kinds x file/directory wrapper) with random secrets: get_readonly, "
         "get_verify_cap (also of the derived caps), is_readonly, is_mutable, storage index, compared with the model and "
         "with an independent hashlib derivation; (b) cap strings (valid, mutated, random, future-test) under every prefix "
-        "('', ro., imm.) x deep_immutable in {False, True}; (c) UnknownNode(rw, ro, deep_immutable) over None / empty / "
+        "('', ro., imm.) x deep_immutable in {False, True}, also through the typed entry points from_string_dirnode/"
+        "_filenode/_mutable_filenode/_verifier with deep_immutable= and name=; (c) UnknownNode(rw, ro, deep_immutable) over None / empty / "
         "unknown / known strings with every prefix, and NodeMaker.create_from_cap in both contexts; (d) histories of 6-10 "
         "create_from_cap calls on one NodeMaker with every node kept alive (same cap in the ordinary and in the "
         "deep-immutable context in both orders, both slots, prefixed variants), each answer compared with a fresh "
@@ -477,6 +478,66 @@ def dir_candidates(r):
     return out
 
 
+TYPED = [("from_string_dirnode", "IDirnodeURI"), ("from_string_filenode", "IFileURI"),
+         ("from_string_mutable_filenode", "IMutableFileURI"), ("from_string_verifier", "IVerifierURI")]
+
+
+def typed_entry_points(ctx):
+    """uri.from_string_dirnode / _filenode / _mutable_filenode / _verifier with deep_immutable= and
+    name=: whatever they return must be what from_string returns for the same arguments."""
+    u = U.uri_mod()
+    ctx.correspondence("typed-entry-points-vs-model")
+    terms, info = [], []
+    n = ctx.n(18, 180)
+    for i in range(n):
+        r = ctx.rng("typed", i)
+        kind = U.FILE_KINDS[i % 9]
+        is_dir = (i // 9) % 2 == 1
+        fields = tuple((x % 2 ** 30) if isinstance(x, int) else x for x in U.gen_fields(r, kind))
+        if kind == "LIT":
+            fields = (fields[0][:16],)
+        c = U.make_cap(kind, fields, is_dir)
+        base = c.to_string()
+        strings = [base, b"ro." + base, b"imm." + base]
+        if i % 6 == 5:
+            strings.append(r.choice(FUTURE[:4]))
+        for s in strings:
+            for di in (False, True):
+                ref = U.impl_from_string(s, di)
+                for fname, iface in TYPED:
+                    case = {"entry_point": fname, "string": s.hex(), "printable": U.show(s), "deep_immutable": di, "typed_case": True}
+                    try:
+                        got = getattr(u, fname)(s, deep_immutable=di, name=u"child")
+                        o = ("ok", U.describe(got), got)
+                    except AssertionError:
+                        o = ("AssertionError",)
+                    except ValueError:
+                        o = ("ValueError",)
+                    except Exception as e:
+                        ctx.oracle_fail("typed-entry-point-raises:" + type(e).__name__, "%s(%s, deep_immutable=%s) raises %s" % (fname, U.show(s), di, type(e).__name__), case=case)
+                        continue
+                    ctx.case((fname, s, di) if o[0] == "ok" else None, kind="typed:%s:%s:%s" % (fname, "deep-immutable" if di else "ordinary", o[0]))
+                    if o[0] == "ok":
+                        cap = o[2]
+                        if ref[0] != "ok" or ref[1] != o[1]:
+                            ctx.oracle_fail("typed-entry-point-ignores-context",
+                                            "%s(%s, deep_immutable=%s) returns %s where from_string with the same arguments gives %s" % (
+                                                fname, U.show(s), di, type(cap).__name__, type(ref[2]).__name__ if ref[0] == "ok" else ref[0]),
+                                            case=case, expected=str(U.jcase(ref[1]))[:300] if ref[0] == "ok" else ref[0], observed=str(U.jcase(o[1]))[:300])
+                        if not isinstance(cap, u.UnknownURI):
+                            if (di or s.startswith(b"ro.") or s.startswith(b"imm.")) and not cap.is_readonly():
+                                ctx.oracle_fail("alleged-prefix-upgraded-to-writeable", "%s(%s, deep_immutable=%s) is a writeable %s" % (fname, U.show(s), di, type(cap).__name__), case=case)
+                            if (di or s.startswith(b"imm.")) and cap.is_mutable():
+                                ctx.oracle_fail("alleged-immutable-interpreted-as-mutable", "%s(%s, deep_immutable=%s) is a mutable %s" % (fname, U.show(s), di, type(cap).__name__), case=case)
+                    terms.append("outcome_eqb (typed_from_string %s %s %s) %s" % (iface, T.boolean(di), T.bytes_(s), U.outcome_term(o)))
+                    info.append(case)
+    bad = ctx.coq_check(IMPORTS, terms, tag="c16typed", shard=120)
+    for ix in bad:
+        ctx.mismatch("model-vs-impl:typed-entry-point", "Model typed_from_string and uri.%s differ on %s (deep_immutable=%s)" % (
+            info[ix]["entry_point"], info[ix]["printable"], info[ix]["deep_immutable"]), case=info[ix], correspondence="typed-entry-points-vs-model")
+    ctx.trace(len(terms) - len(bad))
+
+
 _BL_COUNT = [0]
 
 
@@ -680,6 +741,7 @@ def run(ctx):
     attenuation(ctx)
     prefixes(ctx)
     unknown_nodes(ctx)
+    typed_entry_points(ctx)
     histories(ctx)
     node_accessors(ctx)
     dir_roundtrip(ctx)
@@ -734,6 +796,18 @@ def replay(ctx, rec):
                 ctx.oracle_fail("alleged-prefix-upgraded-to-writeable", "still writeable on replay", case=case)
             if (s.startswith(b"imm.") or case["deep_immutable"]) and o[2].is_mutable():
                 ctx.oracle_fail("alleged-immutable-interpreted-as-mutable", "still mutable on replay", case=case)
+    elif case.get("typed_case"):
+        u = U.uri_mod()
+        s = bytes.fromhex(case["string"])
+        di = bool(case["deep_immutable"])
+        ref = U.impl_from_string(s, di)
+        try:
+            got = getattr(u, case["entry_point"])(s, deep_immutable=di, name=u"child")
+            out = {"returned": U.jcase(U.describe(got)), "from_string": U.jcase(ref[1]) if ref[0] == "ok" else ref[0]}
+            if ref[0] != "ok" or U.describe(got) != ref[1]:
+                ctx.oracle_fail("typed-entry-point-ignores-context", "%s disagrees with from_string for the same arguments" % case["entry_point"], case=case)
+        except AssertionError:
+            out = {"returned": "AssertionError", "from_string": U.jcase(ref[1]) if ref[0] == "ok" else ref[0]}
     elif case.get("accessor_case"):
         rw = None if case["rw_hex"] is None else bytes.fromhex(case["rw_hex"])
         ro = None if case["ro_hex"] is None else bytes.fromhex(case["ro_hex"])
